@@ -238,7 +238,7 @@ class Heap:
                         cs.append(AND(ln >= 0, ln <= len(el)))
                     for k, e in enumerate(el):
                         if is_sym(e):
-                            cs.append(OR(*[self._live_in(e, ec) for ec in elc]))
+                            cs.append(IMPLIES(LT(k, ln), OR(*[self._live_in(e, ec) for ec in elc])))
         for i in range(u.live.get("Instance", 0)):
             for p in range(u.live.get("InnerPin", 0)):
                 t = self.pinmap[i][p]
